@@ -329,6 +329,7 @@ func c04Digest(s *gen.Shape, idx int, t uint8) ([32]byte, error) {
 }
 
 func c04Judge(c *mon.Ctx, in *c04Case) {
+	ownerEditsDecodedEmpties(c)
 	s := &in.Shape
 	i := in.Idx
 	t := in.HashType
@@ -816,6 +817,45 @@ func init() {
 				c04BigPayload = size
 				cs := c04MakeCase(r, 1+int(n%2), 1, 0, t, "FillInput", true)
 				c04BigPayload = 0
+				judge(c, cs)
+			}
+		}
+		c.Phase("huge-inscriptions") // a single content push above 750,000 bytes (the pre-Genesis-derived size constants that sit next to the unlimited post-Genesis ones)
+		n = 0
+		for _, size := range []int{750001, 1000000} {
+			for _, t := range []uint8{0x41, 0x01} {
+				n++
+				if !c.Case(n) {
+					continue
+				}
+				r := c.Rand(n)
+				c04BigPayload = size
+				cs := c04MakeCase(r, 1, 1, 0, t, "FillInput", true)
+				c04BigPayload = 0
+				judge(c, cs)
+			}
+		}
+		c.Phase("large-scripts-in-the-spending-tx") // an output (or another input's unlocking script) longer than the readers' 16 KiB chunk, not a multiple of it, content not repeating
+		n = 0
+		for _, size := range []int{16384, 16385, 20000, 32768, 32769, 40000} {
+			for ti, t := range []uint8{0x41, 0x01, 0x43, 0x03, 0xC1, 0x82} {
+				n++
+				if !c.Case(n) {
+					continue
+				}
+				r := c.Rand(n)
+				cs := c04MakeCase(r, 2, 2, ti%2, t, "FillInput", ti%3 == 0)
+				big := append([]byte{0x00, 0x6a}, r.Bytes(size-2)...)
+				switch n % 3 {
+				case 0:
+					cs.Shape.Outs[0].Script = big
+				case 1:
+					cs.Shape.Outs[1].Script = big
+				default:
+					cs.Shape.Outs[ti%2].Script = big
+					o := &cs.Shape.Ins[1-ti%2]
+					o.Unlock, o.UnlockNil = r.Bytes(size+1), false
+				}
 				judge(c, cs)
 			}
 		}
